@@ -114,6 +114,7 @@ func runOne(t *testing.T, sc *props.Scenario, tier string, wt, st *simkit.Tape) 
 		w.SetEpoch(wt.Choose(86400 * 300))
 		rc := &props.RunCtx{T: t, W: w, Tier: tier, Dir: dir, Prop: sc.Prop}
 		v := sc.Run(rc)
+		w.Freeze()
 		if v == nil {
 			v = w.Violation()
 		}
